@@ -1,7 +1,450 @@
-(* Theorems about Model/Dscore.v (property C10). *)
-From Coq Require Import ZArith Bool List Reals Lra Lia.
+(* Theorems about Model/Dscore.v (property C10), part 1:
+   sums, sorting, Cauchy-Schwarz, the discrimination score range, PIT,
+   pseudo flag, Cramer-von Mises, Anderson-Darling input checks, p-values. *)
+From Coq Require Import ZArith Bool List Reals Lra Lia Permutation Sorted.
 From Hy Require Import Base.Num Gen.Consts Gen.ConstsC10 Model.Dscore.
 Import ListNotations.
 Open Scope R_scope.
 
-Lemma stub : 0 <= 1. Proof. lra. Qed.
+(* ================================================================== *)
+(* sums                                                                *)
+
+Lemma rsumR_app l1 l2 : rsumR (l1 ++ l2) = rsumR l1 + rsumR l2.
+Proof. induction l1 as [|x l1 IH]; simpl; [lra | rewrite IH; lra]. Qed.
+
+Lemma fold_add_RR l v : fold_left (nadd RR) l v = v + rsumR l.
+Proof.
+  revert v; induction l as [|x l IH]; intros v; simpl; [lra|].
+  rewrite IH; simpl; lra.
+Qed.
+
+Lemma tsum_RR l : tsum RR l = rsumR l.
+Proof. unfold tsum; rewrite fold_add_RR; simpl; lra. Qed.
+
+Lemma rsumR_perm l l' : Permutation l l' -> rsumR l = rsumR l'.
+Proof. induction 1; simpl; lra. Qed.
+
+Lemma rsumR_map_ext {A} (f g : A -> R) l :
+  (forall a, In a l -> f a = g a) -> rsumR (map f l) = rsumR (map g l).
+Proof.
+  induction l as [|a l IH]; intros H; simpl; [reflexivity|].
+  rewrite (H a (or_introl eq_refl)), IH; [reflexivity|].
+  intros b Hb; apply H; right; exact Hb.
+Qed.
+
+Lemma rsumR_nonneg l : Forall (fun x => 0 <= x) l -> 0 <= rsumR l.
+Proof. induction 1; simpl; lra. Qed.
+
+(* ================================================================== *)
+(* insertion sort: permutation, sortedness, uniqueness                 *)
+
+Lemma insert_by_perm {A} (le : A -> A -> bool) x l : Permutation (x :: l) (insert_by le x l).
+Proof.
+  induction l as [|y l IH]; simpl; [apply Permutation_refl|].
+  destruct (le x y); [apply Permutation_refl|].
+  eapply Permutation_trans; [apply perm_swap|]. apply perm_skip; exact IH.
+Qed.
+
+Lemma isort_by_perm {A} (le : A -> A -> bool) l : Permutation l (isort_by le l).
+Proof.
+  induction l as [|x l IH]; simpl; [constructor|].
+  eapply Permutation_trans; [apply perm_skip; exact IH|]. apply insert_by_perm.
+Qed.
+
+Lemma isort_by_length {A} (le : A -> A -> bool) l : length (isort_by le l) = length l.
+Proof. symmetry; apply Permutation_length, isort_by_perm. Qed.
+
+Section SortRel.
+Context {A : Type} (le : A -> A -> bool) (P : A -> Prop).
+(* on the elements satisfying P the comparator is total and transitive *)
+Hypothesis le_total : forall a b, P a -> P b -> le a b = true \/ le b a = true.
+Hypothesis le_trans : forall a b c, P a -> P b -> P c ->
+  le a b = true -> le b c = true -> le a c = true.
+
+Definition leP (a b : A) : Prop := le a b = true.
+
+Lemma insert_by_sorted x l :
+  P x -> Forall P l -> StronglySorted leP l -> StronglySorted leP (insert_by le x l).
+Proof.
+  intros Px HP HS. induction l as [|y l IH]; simpl.
+  - constructor; constructor.
+  - inversion HP as [|? ? Py HPl]; subst. inversion HS as [|? ? HSl Hy]; subst.
+    destruct (le x y) eqn:E.
+    + constructor; [exact HS|]. constructor; [exact E|].
+      rewrite Forall_forall in *. intros z Hz.
+      apply (le_trans x y z); auto. apply Hy; exact Hz.
+    + constructor; [apply IH; assumption|].
+      assert (Hyx : le y x = true) by (destruct (le_total x y Px Py); congruence).
+      apply (Permutation_Forall (insert_by_perm le x l)).
+      constructor; assumption.
+Qed.
+
+Lemma isort_by_sorted l : Forall P l -> StronglySorted leP (isort_by le l).
+Proof.
+  induction 1 as [|x l Px HP IH]; simpl; [constructor|].
+  apply insert_by_sorted; [exact Px| |exact IH].
+  apply (Permutation_Forall (isort_by_perm le l)); exact HP.
+Qed.
+End SortRel.
+
+Lemma insert_by_ext {A} (le le' : A -> A -> bool) x s :
+  (forall y, In y s -> le x y = le' x y) -> insert_by le x s = insert_by le' x s.
+Proof.
+  induction s as [|y s IH]; intros H; simpl; [reflexivity|].
+  rewrite (H y (or_introl eq_refl)). destruct (le' x y); [reflexivity|].
+  f_equal. apply IH. intros z Hz; apply H; right; exact Hz.
+Qed.
+
+Lemma isort_by_ext {A} (le le' : A -> A -> bool) l :
+  (forall a b, In a l -> In b l -> le a b = le' a b) -> isort_by le l = isort_by le' l.
+Proof.
+  induction l as [|x l IH]; intros H; simpl; [reflexivity|].
+  rewrite <- IH by (intros a b Ha Hb; apply H; right; assumption).
+  apply insert_by_ext. intros y Hy. apply H; [left; reflexivity|right].
+  eapply Permutation_in; [apply Permutation_sym, isort_by_perm|exact Hy].
+Qed.
+
+Lemma insert_by_map {A B} (f : A -> B) (leA : A -> A -> bool) (leB : B -> B -> bool) x s :
+  (forall a b, leB (f a) (f b) = leA a b) ->
+  insert_by leB (f x) (map f s) = map f (insert_by leA x s).
+Proof.
+  intros H. induction s as [|y s IHs]; simpl; [reflexivity|].
+  rewrite H. destruct (leA x y); simpl; [reflexivity|]. f_equal; exact IHs.
+Qed.
+
+Lemma isort_by_map {A B} (f : A -> B) (leA : A -> A -> bool) (leB : B -> B -> bool) l :
+  (forall a b, leB (f a) (f b) = leA a b) ->
+  isort_by leB (map f l) = map f (isort_by leA l).
+Proof.
+  intros H. induction l as [|x l IH]; simpl; [reflexivity|]. rewrite IH.
+  apply insert_by_map; exact H.
+Qed.
+
+(* real numbers: the sorted arrangement of a sample is unique *)
+Lemma sorted_perm_unique (s s' : list R) :
+  StronglySorted Rle s -> StronglySorted Rle s' -> Permutation s s' -> s = s'.
+Proof.
+  revert s'. induction s as [|a s IH]; intros s' H1 H2 HP.
+  - apply Permutation_nil in HP; subst; reflexivity.
+  - destruct s' as [|b s'].
+    + apply Permutation_sym, Permutation_nil in HP; discriminate.
+    + inversion H1 as [|? ? H1s H1a]; subst. inversion H2 as [|? ? H2s H2b]; subst.
+      assert (Hab : a = b).
+      { rewrite Forall_forall in H1a, H2b.
+        assert (Ha : In a (b :: s')) by (eapply Permutation_in; [exact HP|left; reflexivity]).
+        assert (Hb : In b (a :: s)) by (eapply Permutation_in; [apply Permutation_sym; exact HP|left; reflexivity]).
+        destruct Ha as [Ha|Ha]; [congruence|]. destruct Hb as [Hb|Hb]; [congruence|].
+        apply Rle_antisym; [apply H1a; exact Hb | apply H2b; exact Ha]. }
+      subst b. f_equal. apply IH; [assumption|assumption|].
+      eapply Permutation_cons_inv; exact HP.
+Qed.
+
+Lemma isort_Rleb_sorted l : StronglySorted Rle (isort_by Rleb l).
+Proof.
+  assert (H := isort_by_sorted Rleb (fun _ => True)).
+  assert (HS : StronglySorted (leP Rleb) (isort_by Rleb l)).
+  { apply H.
+    - intros a b _ _. destruct (Rle_dec a b) as [Hab|Hab].
+      + left; apply Rleb_true; exact Hab.
+      + right; apply Rleb_true; lra.
+    - intros a b c _ _ _ H1 H2. apply Rleb_true in H1, H2. apply Rleb_true; lra.
+    - apply Forall_forall; intros; exact I. }
+  clear H. induction HS as [|x s HS IH Hx]; constructor; [exact IH|].
+  eapply Forall_impl; [|exact Hx]. intros a Ha. apply Rleb_true; exact Ha.
+Qed.
+
+Theorem isort_Rleb_perm_invariant l l' :
+  Permutation l l' -> isort_by Rleb l = isort_by Rleb l'.
+Proof.
+  intros HP. apply sorted_perm_unique; try apply isort_Rleb_sorted.
+  eapply Permutation_trans; [apply Permutation_sym, isort_by_perm|].
+  eapply Permutation_trans; [exact HP|apply isort_by_perm].
+Qed.
+
+Theorem isort_Rleb_is_the_sorted s l :
+  Permutation s l -> StronglySorted Rle s -> isort_by Rleb l = s.
+Proof.
+  intros HP HS. symmetry. apply sorted_perm_unique; [exact HS|apply isort_Rleb_sorted|].
+  eapply Permutation_trans; [exact HP|apply isort_by_perm].
+Qed.
+
+(* ================================================================== *)
+(* Cauchy-Schwarz for lists and the correlation coefficient            *)
+
+Definition sdot (a b : list R) : R := rsumR (map (fun p => fst p * snd p) (combine a b)).
+
+Lemma tdot_RR a b : tdot RR a b = sdot a b.
+Proof. unfold tdot, sdot. rewrite tsum_RR. reflexivity. Qed.
+
+Lemma sq_le_le x y : 0 <= y -> x * x <= y * y -> x <= y.
+Proof. intros Hy H. destruct (Rle_dec x y); [assumption|]. exfalso. nra. Qed.
+
+Lemma cauchy_schwarz_comb (l : list (R * R)) :
+  let A := rsumR (map (fun p => fst p * fst p) l) in
+  let B := rsumR (map (fun p => snd p * snd p) l) in
+  let C := rsumR (map (fun p => fst p * snd p) l) in
+  0 <= A /\ 0 <= B /\ C * C <= A * B.
+Proof.
+  induction l as [|[a b] l IH]; simpl in *.
+  - repeat split; lra.
+  - destruct IH as (HA & HB & HC).
+    set (A := rsumR (map (fun p => fst p * fst p) l)) in *.
+    set (B := rsumR (map (fun p => snd p * snd p) l)) in *.
+    set (C := rsumR (map (fun p => fst p * snd p) l)) in *.
+    assert (Ha2 : 0 <= a * a) by nra. assert (Hb2 : 0 <= b * b) by nra.
+    repeat split; try nra.
+    assert (Hy : 0 <= A * (b * b) + B * (a * a)) by nra.
+    assert (Hx : (2 * C * a * b) * (2 * C * a * b) <=
+                 (A * (b * b) + B * (a * a)) * (A * (b * b) + B * (a * a))).
+    { assert (H1 := Rle_0_sqr (A * (b * b) - B * (a * a))). unfold Rsqr in H1.
+      assert (H2 : C * C * ((a * a) * (b * b)) <= A * B * ((a * a) * (b * b))).
+      { apply Rmult_le_compat_r; [nra|exact HC]. }
+      nra. }
+    pose proof (sq_le_le _ _ Hy Hx). nra.
+Qed.
+
+Lemma combine_map_fst {A B} (a : list A) (b : list B) :
+  length a = length b -> map fst (combine a b) = a.
+Proof.
+  revert b; induction a as [|x a IH]; intros [|y b] H; simpl in *; try discriminate; [reflexivity|].
+  f_equal; apply IH; lia.
+Qed.
+
+Theorem cauchy_schwarz (a b : list R) :
+  sdot a b * sdot a b <= sdot a a * sdot b b.
+Proof.
+  (* on the common prefix; the longer list's tail does not enter sdot a b but
+     adds non-negative terms on the right *)
+  revert b. induction a as [|x a IH]; intros b.
+  - unfold sdot; simpl. assert (H := cauchy_schwarz_comb (combine b b)). simpl in H. nra.
+  - destruct b as [|y b].
+    + unfold sdot; simpl.
+      assert (H := cauchy_schwarz_comb (combine (x :: a) (x :: a))). simpl in H. nra.
+    + specialize (IH b). unfold sdot in *. simpl.
+      set (C := rsumR (map (fun p => fst p * snd p) (combine a b))) in *.
+      set (A := rsumR (map (fun p => fst p * snd p) (combine a a))) in *.
+      set (B := rsumR (map (fun p => fst p * snd p) (combine b b))) in *.
+      assert (HA : 0 <= A).
+      { subst A. apply rsumR_nonneg. apply Forall_forall. intros z Hz.
+        apply in_map_iff in Hz. destruct Hz as ([p q] & <- & Hin). simpl.
+        assert (p = q).
+        { clear -Hin. induction a as [|u a IHa]; simpl in Hin; [contradiction|].
+          destruct Hin as [E|Hin]; [congruence|auto]. }
+        subst; nra. }
+      assert (HB : 0 <= B).
+      { subst B. apply rsumR_nonneg. apply Forall_forall. intros z Hz.
+        apply in_map_iff in Hz. destruct Hz as ([p q] & <- & Hin). simpl.
+        assert (p = q).
+        { clear -Hin. induction b as [|u b IHb]; simpl in Hin; [contradiction|].
+          destruct Hin as [E|Hin]; [congruence|auto]. }
+        subst; nra. }
+      assert (Hy : 0 <= A * (y * y) + B * (x * x)) by nra.
+      assert (Hx : (2 * C * x * y) * (2 * C * x * y) <=
+                   (A * (y * y) + B * (x * x)) * (A * (y * y) + B * (x * x))).
+      { assert (H1 := Rle_0_sqr (A * (y * y) - B * (x * x))). unfold Rsqr in H1.
+        assert (H2 : C * C * ((x * x) * (y * y)) <= A * B * ((x * x) * (y * y))).
+        { apply Rmult_le_compat_r; [nra|exact IH]. }
+        nra. }
+      pose proof (sq_le_le _ _ Hy Hx). nra.
+Qed.
+
+Lemma sdot_self_nonneg a : 0 <= sdot a a.
+Proof.
+  unfold sdot. apply rsumR_nonneg. apply Forall_forall. intros z Hz.
+  apply in_map_iff in Hz. destruct Hz as ([p q] & <- & Hin). simpl.
+  assert (p = q).
+  { clear -Hin. induction a as [|u a IHa]; simpl in Hin; [contradiction|].
+    destruct Hin as [E|Hin]; [congruence|auto]. }
+  subst; nra.
+Qed.
+
+(* |cxy| <= sqrt cxx * sqrt cyy, hence the unclipped coefficient is in [-1,1] *)
+Theorem corr_raw_in_range (x y : list R) :
+  (2 <= length x)%nat ->
+  0 < sdot (centred RR x) (centred RR x) ->
+  0 < sdot (centred RR y) (centred RR y) ->
+  -1 <= corr_raw RR x y <= 1.
+Proof.
+  intros Hn Hx Hy. unfold corr_raw. rewrite !tdot_RR.
+  set (xc := centred RR x) in *. set (yc := centred RR y) in *.
+  cbn [ndiv nmul nsqrt n1 nofZ RR].
+  set (f := 1 / IZR (Z.of_nat (length x) - 1)).
+  assert (Hf : 0 < f).
+  { subst f. apply Rdiv_lt_0_compat; [lra|]. apply IZR_lt. lia. }
+  pose proof (cauchy_schwarz xc yc) as HCS.
+  set (Sxy := sdot xc yc) in *. set (Sxx := sdot xc xc) in *. set (Syy := sdot yc yc) in *.
+  assert (Hsx : 0 < sqrt (Sxx * f)) by (apply sqrt_lt_R0; nra).
+  assert (Hsy : 0 < sqrt (Syy * f)) by (apply sqrt_lt_R0; nra).
+  assert (Hprod : sqrt (Sxx * f) * sqrt (Syy * f) = sqrt (Sxx * Syy) * f).
+  { rewrite <- sqrt_mult by nra.
+    replace (Sxx * f * (Syy * f)) with ((Sxx * Syy) * (f * f)) by ring.
+    rewrite sqrt_mult by nra. rewrite sqrt_square by lra. reflexivity. }
+  assert (Habs : Rabs Sxy <= sqrt (Sxx * Syy)).
+  { apply Rsqr_incr_0_var; [|apply sqrt_pos].
+    rewrite <- Rsqr_abs. unfold Rsqr at 2. rewrite sqrt_sqrt by nra. unfold Rsqr; exact HCS. }
+  assert (Hq : Sxy * f / sqrt (Sxx * f) / sqrt (Syy * f) = Sxy / sqrt (Sxx * Syy)).
+  { assert (Hs : 0 < sqrt (Sxx * Syy)) by (apply sqrt_lt_R0; nra).
+    unfold Rdiv. rewrite Rmult_assoc, <- Rinv_mult by lra.
+    rewrite Hprod. field. split; lra. }
+  rewrite Hq.
+  assert (Hs : 0 < sqrt (Sxx * Syy)) by (apply sqrt_lt_R0; nra).
+  apply Rabs_le_inv. unfold Rdiv. rewrite Rabs_mult, (Rabs_right (/ _)).
+  - apply (Rmult_le_reg_r (sqrt (Sxx * Syy))); [exact Hs|].
+    rewrite Rmult_assoc, Rinv_l by lra. lra.
+  - apply Rle_ge, Rlt_le, Rinv_0_lt_compat; exact Hs.
+Qed.
+
+Lemma clip_RR_id lo hi x : lo <= x <= hi -> clip RR lo hi x = x.
+Proof.
+  intros [H1 H2]. unfold clip; cbn [nltb RR].
+  destruct (Rltb x lo) eqn:E1; [apply Rltb_true in E1; lra|].
+  destruct (Rltb hi x) eqn:E2; [apply Rltb_true in E2; lra|]. reflexivity.
+Qed.
+
+Lemma clip_RR_range lo hi x : lo <= hi -> lo <= clip RR lo hi x <= hi.
+Proof.
+  intros H. unfold clip; cbn [nltb RR].
+  destruct (Rltb x lo) eqn:E1; [lra|]. apply Rltb_false in E1.
+  destruct (Rltb hi x) eqn:E2; [lra|]. apply Rltb_false in E2. lra.
+Qed.
+
+(* the clip of numpy.corrcoef never acts over the reals *)
+Theorem corrcoef_clip_noop (x y : list R) :
+  (2 <= length x)%nat ->
+  0 < sdot (centred RR x) (centred RR x) ->
+  0 < sdot (centred RR y) (centred RR y) ->
+  corrcoef RR x y = corr_raw RR x y.
+Proof.
+  intros. unfold corrcoef. apply clip_RR_id. cbn [nofZ n1 RR].
+  apply corr_raw_in_range; assumption.
+Qed.
+
+Lemma KR_d_consts : k_d_add KR = 1 /\ k_d_div KR = 2.
+Proof. split; cbn; unfold DSCORE_ADD_R, DSCORE_DIV_R; lra. Qed.
+
+Theorem dscore_of_ranks_in_unit (oranks franks : list R) :
+  (2 <= length oranks)%nat ->
+  0 < sdot (centred RR oranks) (centred RR oranks) ->
+  0 < sdot (centred RR franks) (centred RR franks) ->
+  0 <= dscore_of_ranks RR KR oranks franks <= 1 /\
+  dscore_of_ranks RR KR oranks franks = (corr_raw RR oranks franks + 1) / 2.
+Proof.
+  intros Hn Ho Hf. unfold dscore_of_ranks.
+  rewrite corrcoef_clip_noop by assumption.
+  destruct KR_d_consts as [-> ->]. cbn [nadd ndiv RR].
+  pose proof (corr_raw_in_range _ _ Hn Ho Hf). split; [lra|reflexivity].
+Qed.
+
+Theorem dscore_in_unit eps obs sim :
+  let oranks := map IZR (argsort_ranks RR obs) in
+  let franks := forecast_ranks RR KR eps sim in
+  (2 <= length obs)%nat ->
+  0 < sdot (centred RR oranks) (centred RR oranks) ->
+  0 < sdot (centred RR franks) (centred RR franks) ->
+  0 <= dscore RR KR eps obs sim <= 1.
+Proof.
+  intros oranks franks Hn Ho Hf. unfold dscore.
+  apply dscore_of_ranks_in_unit; try assumption.
+  change (map (nofZ RR) (argsort_ranks RR obs)) with oranks.
+  subst oranks. rewrite map_length. unfold argsort_ranks.
+  assert (H : forall front l, length (argsort_ranks_from RR front l) = length l).
+  { intros front l; revert front; induction l; intros; simpl; [reflexivity|f_equal; apply IHl]. }
+  rewrite H. exact Hn.
+Qed.
+
+(* score of identical rank vectors (perfect ordering) and of reversed ones *)
+Lemma sdot_scale_r a b k :
+  sdot a (map (fun v => k * v) b) = k * sdot a b.
+Proof.
+  unfold sdot. revert b; induction a as [|x a IH]; intros [|y b]; simpl; try lra.
+  rewrite IH; lra.
+Qed.
+
+Lemma centred_shift x c :
+  x <> [] -> centred RR (map (fun v => v + c) x) = centred RR x.
+Proof.
+  intros Hx. unfold centred, tmean. rewrite !tsum_RR, map_length, map_map.
+  cbn [ndiv nsub nofZ RR].
+  assert (Hs : rsumR (map (fun v => v + c) x) = rsumR x + INR (length x) * c).
+  { clear Hx. induction x as [|a x IH]; [simpl; lra|].
+    change (length (a :: x)) with (S (length x)). rewrite S_INR. simpl. rewrite IH. lra. }
+  rewrite Hs. apply map_ext. intros a. rewrite <- INR_IZR_INZ.
+  assert (Hn : INR (length x) <> 0).
+  { apply not_0_INR. destruct x; [contradiction|discriminate]. }
+  field; exact Hn.
+Qed.
+
+Lemma centred_scale x k :
+  centred RR (map (fun v => k * v) x) = map (fun v => k * v) (centred RR x).
+Proof.
+  unfold centred, tmean. rewrite !tsum_RR, map_length, !map_map.
+  cbn [ndiv nsub nofZ RR].
+  assert (Hs : rsumR (map (fun v => k * v) x) = k * rsumR x).
+  { induction x as [|a x IH]; simpl; [lra|rewrite IH; lra]. }
+  rewrite Hs. apply map_ext. intros a. unfold Rdiv. ring.
+Qed.
+
+Lemma sdot_scale_l a b k :
+  sdot (map (fun v => k * v) a) b = k * sdot a b.
+Proof.
+  unfold sdot. revert b; induction a as [|x a IH]; intros [|y b]; simpl; try lra.
+  rewrite IH; lra.
+Qed.
+
+Lemma corr_raw_self_shift x c :
+  (2 <= length x)%nat -> 0 < sdot (centred RR x) (centred RR x) ->
+  corr_raw RR x (map (fun v => v + c) x) = 1.
+Proof.
+  intros Hn Hx. unfold corr_raw.
+  assert (Hne : x <> []) by (destruct x; [simpl in Hn; lia|discriminate]).
+  rewrite centred_shift by exact Hne. rewrite !tdot_RR.
+  cbn [ndiv nmul nsqrt n1 nofZ RR].
+  set (S := sdot (centred RR x) (centred RR x)) in *.
+  set (f := 1 / IZR (Z.of_nat (length x) - 1)).
+  assert (Hf : 0 < f).
+  { subst f. apply Rdiv_lt_0_compat; [lra|]. apply IZR_lt. lia. }
+  assert (Hs : 0 < sqrt (S * f)) by (apply sqrt_lt_R0; nra).
+  unfold Rdiv. rewrite Rmult_assoc, <- Rinv_mult by lra.
+  rewrite sqrt_sqrt by nra. field. nra.
+Qed.
+
+Lemma corr_raw_self_reverse x c :
+  (2 <= length x)%nat -> 0 < sdot (centred RR x) (centred RR x) ->
+  corr_raw RR x (map (fun v => c - v) x) = -1.
+Proof.
+  intros Hn Hx. unfold corr_raw.
+  assert (Hne : x <> []) by (destruct x; [simpl in Hn; lia|discriminate]).
+  assert (E : map (fun v => c - v) x = map (fun v => v + c) (map (fun v => -1 * v) x)).
+  { rewrite map_map. apply map_ext; intros; lra. }
+  rewrite E, centred_shift by (destruct x; [contradiction|discriminate]).
+  rewrite centred_scale, !tdot_RR, sdot_scale_r, sdot_scale_l, sdot_scale_r.
+  cbn [ndiv nmul nsqrt n1 nofZ RR].
+  set (S := sdot (centred RR x) (centred RR x)) in *.
+  set (f := 1 / IZR (Z.of_nat (length x) - 1)).
+  assert (Hf : 0 < f).
+  { subst f. apply Rdiv_lt_0_compat; [lra|]. apply IZR_lt. lia. }
+  replace (-1 * (-1 * S) * f) with (S * f) by ring.
+  assert (Hs : 0 < sqrt (S * f)) by (apply sqrt_lt_R0; nra).
+  unfold Rdiv. rewrite Rmult_assoc, <- Rinv_mult by lra.
+  rewrite sqrt_sqrt by nra. field. nra.
+Qed.
+
+(* D = 1 when the forecast ranks are the observation ranks up to a shift
+   (the kernel's ranks start at 1, argsort's at 0), D = 0 when reversed *)
+Theorem dscore_of_ranks_perfect oranks c :
+  (2 <= length oranks)%nat -> 0 < sdot (centred RR oranks) (centred RR oranks) ->
+  dscore_of_ranks RR KR oranks (map (fun v => v + c) oranks) = 1.
+Proof.
+  intros Hn Ho. unfold dscore_of_ranks, corrcoef.
+  rewrite corr_raw_self_shift by assumption.
+  destruct KR_d_consts as [-> ->]. rewrite clip_RR_id by (cbn; lra). cbn; lra.
+Qed.
+
+Theorem dscore_of_ranks_inverse oranks c :
+  (2 <= length oranks)%nat -> 0 < sdot (centred RR oranks) (centred RR oranks) ->
+  dscore_of_ranks RR KR oranks (map (fun v => c - v) oranks) = 0.
+Proof.
+  intros Hn Ho. unfold dscore_of_ranks, corrcoef.
+  rewrite corr_raw_self_reverse by assumption.
+  destruct KR_d_consts as [-> ->]. rewrite clip_RR_id by (cbn; lra). cbn; lra.
+Qed.
